@@ -1877,6 +1877,9 @@ fn declare_import(
         sig.push_str(" -> ");
         sig.push_str(wasm_type(*result));
     }
+    if let Some(text) = verif_native_import(wasm_import_module, wasm_import_name, rust_name, &sig) {
+        return text;
+    }
     format!(
         "
             #[cfg(target_arch = \"wasm32\")]
@@ -1890,6 +1893,48 @@ fn declare_import(
             unsafe extern \"C\" fn {rust_name}{sig} {{ unreachable!() }}
         "
     )
+}
+
+/// Verification hook H3 (inert unless the generator itself is compiled with
+/// `--cfg bytecodealliance_wit_bindgen_verif` *and* runs with the environment
+/// variable `WIT_BINDGEN_VERIF=1`).
+///
+/// When active, the non-wasm fallback of an import declaration is no longer an
+/// `unreachable!()` shim but a declaration of a real `extern "C"` symbol named
+/// `[verif-import]{module}#{name}`, so that a native harness can define that
+/// symbol and act as the component-model host. The `wasm32` text is unchanged.
+/// With the guard off this always returns `None` and nothing changes.
+#[allow(
+    unexpected_cfgs,
+    reason = "verification-only cfg, never set by cargo"
+)]
+fn verif_native_import(
+    wasm_import_module: &str,
+    wasm_import_name: &str,
+    rust_name: &str,
+    sig: &str,
+) -> Option<String> {
+    #[cfg(bytecodealliance_wit_bindgen_verif)]
+    if std::env::var_os("WIT_BINDGEN_VERIF").is_some_and(|v| v == "1") {
+        return Some(format!(
+            "
+            #[cfg(target_arch = \"wasm32\")]
+            #[link(wasm_import_module = \"{wasm_import_module}\")]
+            unsafe extern \"C\" {{
+                #[link_name = \"{wasm_import_name}\"]
+                fn {rust_name}{sig};
+            }}
+
+            #[cfg(not(target_arch = \"wasm32\"))]
+            unsafe extern \"C\" {{
+                #[link_name = \"[verif-import]{wasm_import_module}#{wasm_import_name}\"]
+                fn {rust_name}{sig};
+            }}
+        "
+        ));
+    }
+    let _ = (wasm_import_module, wasm_import_name, rust_name, sig);
+    None
 }
 
 fn int_repr(repr: Int) -> &'static str {
